@@ -2,7 +2,7 @@
     accepts exactly the lists that are, item by item and with the same length, equal to an enumeration member in the
     item type's value space; the union comparison against the Spec's union equality. *)
 From Coq Require Import ZArith Lia.
-From XV Require Import C09.Spec09 C09.Spec09d C09.Spec09f C09.Spec09i C09.Model09 C09.Model09f C09.Model09i C09.Proofs09p.
+From XV Require Import C09.Spec09 C09.Spec09b C09.Spec09d C09.Spec09f C09.Spec09i C09.Model09 C09.Model09b C09.Model09f C09.Model09i C09.Proofs09p.
 Local Open Scope N_scope.
 
 Section L.
@@ -36,3 +36,13 @@ Section L.
   Proof. induction a as [|x a IH]; intros [|y b] H; cbn [items_eq] in H; try discriminate; [reflexivity|].
     apply andb_prop in H. destruct H as [_ H]. cbn [length]. f_equal. apply IH. exact H. Qed.
 End L.
+
+(** finding F38 on the model: union equality through any member type vs the Spec's union equality *)
+Definition mv_int : mval := mkMval (fun s => integer_lex s) (fun a b => if integer_lex a && integer_lex b then Some (integer_value a - integer_value b)%Z else None).
+Definition mv_bool : mval := mkMval bool_lex (fun a b => Some (C09.Model09b.bool_cmp a b)).
+Definition sm_int : member := mkMember integer_lex (fun a b => (integer_value a =? integer_value b)%Z).
+Definition sm_bool : member := mkMember bool_lex (fun a b => match bool_value a, bool_value b with Some x, Some y => Bool.eqb x y | _, _ => false end).
+Lemma union_eq_refuted :
+  union_compare [mv_int; mv_bool] [0x31] C09.Spec09b.s_true = 0%Z /\ union_eq [sm_int; sm_bool] [0x31] C09.Spec09b.s_true = false /\
+  union_enum_check [mv_int; mv_bool] C09.Spec09b.s_true [[0x31]] = true.
+Proof. vm_compute. repeat split; reflexivity. Qed.
